@@ -127,6 +127,53 @@ pub fn check_history(hc: &HistCtx, rep: &mut Report) -> Vec<Fail> {
     fails
 }
 
+/// Directed: canons whose content has REPEATED entries (the same value, or the same key-value pair, appended twice; results of
+/// identical calls) — the templates use a unique value per append, so repeated entries never occur there.  The same canon is
+/// shown to a service in the run that creates it, in a later run of the creating peer and on another peer: every `show_*`
+/// request must carry the same arguments (the canon is fixed once and identical everywhere).
+fn repeated_entries(ctx: &mut Ctx, rep: &mut Report) {
+    use crate::host::decode_requests; use crate::sim::{decode_args, Net};
+    let peers = peers_named(3);
+    let (p, q) = (&peers[0].id, &peers[1].id);
+    let shows = |args: &str| format!(r#"(seq (call "{p}" ("obs" "show_1") [{args}]) (seq (call "{q}" ("obs" "show_2") [{args}]) (seq (call "{p}" ("obs" "show_3") [{args}]) (call "{q}" ("obs" "show_4") [{args}]))))"#);
+    let scripts = [
+        ("map: the same pair twice", format!(r#"(seq (seq (ap ("k" "yes") %m) (seq (ap ("k" "yes") %m) (seq (ap ("k" "other") %m) (ap ("j" "yes") %m)))) (seq (canon "{p}" %m #%cm) {}))"#, shows("#%cm #%cm.$.k"))),
+        ("stream: the same value twice", format!(r#"(seq (seq (ap "yes" $s) (seq (ap "yes" $s) (ap "other" $s))) (seq (canon "{p}" $s #cs) {}))"#, shows("#cs"))),
+        ("map: results of identical calls under one key", format!(r#"(seq (seq (call "{q}" ("svc" "str_7") [] x) (seq (call "{q}" ("svc" "str_7") [] y) (seq (ap ("k" x) %m) (seq (ap ("k" y) %m) (ap ("k" x) %m))))) (seq (canon "{q}" %m #%cm) {}))"#, shows("#%cm.$.k #%cm"))),
+        ("map into a scalar: the same pair twice", format!(r#"(seq (seq (ap ("k" 1) %m) (seq (ap ("k" 1) %m) (ap ("k" 2) %m))) (seq (canon "{p}" %m cm) {}))"#, shows("cm"))),
+    ];
+    let mut corr = Corr::new();
+    for (si, (what, air)) in scripts.iter().enumerate() {
+        if air_parser::parse(air).is_err() { rep.oracle_fail(serde_json::json!({"why": format!("harness: directed C11 script does not parse: {what}"), "input": {"air": air}})); continue; }
+        for round in 0..(if ctx.thorough { 12u64 } else { 3 }) {
+            let mut net = Net::new(air, &peers, &format!("c11-repeated-{si}-{round}"));
+            let mut r2 = Rng::new(ctx.seed ^ 0xC11 ^ (si as u64 * 977 + round * 7919));
+            run_random_det(&mut net, &mut r2, 60);
+            drain(&mut net, &mut r2, 200);
+            rep.case(&format!("repeated|{si}|{round}"), true, || serde_json::json!({"template": "directed repeated entries", "what": what, "air": air}));
+            rep.stat("directed_repeated_entries_histories");
+            corr.history(ctx, rep, &net, &["code", "trace", "stores", "requests"]);
+            let mut seen: Option<(String, String)> = None;
+            for st in &net.log {
+                for (_, r) in decode_requests(&st.outcome.call_requests).unwrap_or_default() {
+                    if r.service_id != "obs" { continue; }
+                    let args = serde_json::to_string(&decode_args(&r)).unwrap_or_default();
+                    rep.stat("show_requests");
+                    match &seen {
+                        None => seen = Some((r.function_name.clone(), args)),
+                        Some((f0, a0)) if *a0 != args => {
+                            rep.oracle_fail(serde_json::json!({"why": format!("the same canon was handed to {f0} as {a0} and to {} (peer {}, step {}) as {args}: a canonical value must be identical everywhere [{what}]", r.function_name, net.peers[st.peer].peer.name, st.step),
+                                "input": crate::props::hist::step_json(&net, st), "scenario": "c11 repeated entries"}));
+                            return;
+                        }
+                        _ => {}
+                    }
+                }
+            }
+        }
+    }
+}
+
 pub fn run(ctx: &mut Ctx, rep: &mut Report) {
     rep.rule = "case = one run of a simulated honest history of a canon template (2-4 writers via call/ap in seq/par positions on 3-5 peers (streams and stream maps), canon at a literal / variable-selected / init-peer target, \
         canon stream used as service argument on the designated and other peers and folded over, stream extended after the canon and by late-arriving data, second canon later / at another peer, \
@@ -134,5 +181,6 @@ pub fn run(ctx: &mut Ctx, rep: &mut Report) {
         plus scripts of the general generator (origin and take-over checks only); non-trivial = history with at least 2 runs and a stream value; distinct by hash of (script, schedule)".into();
     let setup = Setup { prop: "C11", fields: &["code", "trace", "stores", "requests"], families: vec![Family::WritersCanon, Family::WritersCanon, Family::ParCanons, Family::NewScopes, Family::WritersCanon, Family::StreamMap, Family::NestedFolds],
         histories: (160, 3000), generated: (60, 2000), seed_salt: 0xC11, time_guard: (45, 700) };
+    repeated_entries(ctx, rep);
     drive(ctx, rep, &setup, &mut |hc, rep| check_history(hc, rep));
 }
